@@ -88,10 +88,11 @@ PtrSize == 8
    fn : function name -> <<res, <<args>>, ellipsis>>
    gv : global variable name -> term
    inc: keys of declarations that came in through ffi.include() (C34)
+   from: positions (in the chain of FFIs, C34) of the FFIs this one includes, in include() order
    anon: cparser.py _anonymous_counter: number of "$N" names given so far to nested anonymous
         aggregates ( struct s1 { struct { int x; } c; }; : the type of c is "struct $1" )          *)
 EnvInit == [td |-> EmptyFn, su |-> EmptyFn, en |-> EmptyFn, kc |-> EmptyFn,
-            fn |-> EmptyFn, gv |-> EmptyFn, inc |-> {}, anon |-> 0]
+            fn |-> EmptyFn, gv |-> EmptyFn, inc |-> {}, anon |-> 0, from |-> <<>>]
 
 OpaqueSU == [complete |-> FALSE, fields |-> <<>>, force |-> ""]
 
